@@ -9,12 +9,14 @@ import (
 	"errors"
 	"fmt"
 	"os"
+	"reflect"
 	"runtime"
 	"sort"
 	"strings"
 	"sync"
 	"sync/atomic"
 	"time"
+	"unsafe"
 
 	"google.golang.org/grpc"
 
@@ -276,6 +278,33 @@ func txActive(tx interfaces.Transaction) bool {
 	return !isClosedErr(err)
 }
 
+// keptLock looks at the unexported lock flags of a TransactionImpl (the
+// "lock-held flags" named in the property's anchors): true if the transaction
+// still considers itself owner of the read or the write lock. Only used to
+// speed up and to name a failure, never as a verdict; when the fields cannot
+// be found (refactored code) it reports false.
+func keptLock(tx interfaces.Transaction) (kept bool) {
+	defer func() {
+		if recover() != nil {
+			kept = false
+		}
+	}()
+	v := reflect.ValueOf(tx)
+	if v.Kind() != reflect.Ptr || v.Elem().Kind() != reflect.Struct {
+		return false
+	}
+	for _, name := range []string{"hasReadLock", "hasWriteLock"} {
+		f := v.Elem().FieldByName(name)
+		if !f.IsValid() || !f.CanAddr() || f.Type() != reflect.TypeOf(atomic.Bool{}) {
+			continue
+		}
+		if (*atomic.Bool)(unsafe.Pointer(f.UnsafeAddr())).Load() {
+			return true
+		}
+	}
+	return false
+}
+
 func (w *world) recHolding(r *beginRec) bool {
 	return r.owner != nil && (r.owner.state == stInflight || r.owner.holds())
 }
@@ -296,33 +325,45 @@ func beginGoroutineRunning() bool {
 	return false
 }
 
-// leak returns a description of a transaction that is still active although
-// nobody who could finish it knows it any more. certain=true means the
-// evidence does not depend on timing.
+// leak returns a description of a transaction that keeps the lock although
+// nobody who could finish it knows it any more: it is still active, or it is
+// closed but its lock flag says that it never let go. needCertain: only
+// evidence that does not depend on timing (for a late begin: its goroutine
+// inside Registry.Begin has ended, so nothing is going to roll it back).
 func (w *world) leak(needCertain bool) (desc string, found bool) {
 	w.weng.mu.Lock()
 	recs := append([]*beginRec{}, w.weng.recs...)
 	w.weng.mu.Unlock()
-	checkedStack, past := false, false
+	checkedStack, running := false, false
 	for _, r := range recs {
 		if !r.acquired.Load() || r.tx == nil || w.recHolding(r) || r.how == "probe_open" {
 			continue
 		}
-		if !txActive(r.tx) {
+		look := func() string {
+			if txActive(r.tx) {
+				return "holder="
+			}
+			if keptLock(r.tx) {
+				return "holder=closed_but_kept_lock:"
+			}
+			return ""
+		}
+		kind := look()
+		if kind == "" {
 			continue
 		}
 		if r.ghost && needCertain {
 			if !checkedStack {
-				past, checkedStack = beginGoroutineRunning(), true
+				running, checkedStack = beginGoroutineRunning(), true
 			}
-			if past {
+			if running {
 				continue
 			}
-			if !txActive(r.tx) {
+			if kind = look(); kind == "" {
 				continue
 			}
 		}
-		return fmt.Sprintf("holder=%s:%s:%s", r.how, r.path, r.mode()), true
+		return fmt.Sprintf("%s%s:%s:%s", kind, r.how, r.path, r.mode()), true
 	}
 	return "", false
 }
@@ -334,6 +375,11 @@ func (w *world) diagnose() string {
 	var rel []string
 	for _, r := range w.releases {
 		rel = append(rel, r.what)
+	}
+	for _, g := range w.ghosts() {
+		if g.acquired.Load() {
+			rel = append(rel, "late_begin_rolled_back:"+g.mode())
+		}
 	}
 	sort.Strings(rel)
 	out := rel[:0]
@@ -423,10 +469,12 @@ func (w *world) blocked(what string) {
 	why := ""
 	if strings.HasPrefix(d, "holder=none_active") {
 		why = "; every transaction ever created is inactive, so a finished one kept its lock"
+	} else if strings.HasPrefix(d, "holder=closed_but_kept_lock") {
+		why = "; a finished transaction never released its lock (" + d + ")"
 	} else {
 		why = "; a transaction that no client and no registry entry can reach any more is still active (" + d + ")"
 	}
-	w.fail("blocked_forever:"+d, "%s did not get the lock within %v (bound %v, %v once an unreachable active transaction is proven) although no transaction known to any client holds it%s",
+	w.fail("blocked_forever:"+d, "%s did not get the lock within %v (bound %v; %v once a transaction that nobody can finish any more is shown to keep the lock) although no transaction known to any client holds it%s",
 		what, w.lastWait.Round(time.Millisecond), slowBound, fastBound, why)
 }
 
